@@ -351,6 +351,18 @@ func (s *session) quiesce() bool {
 		if n == 0 {
 			return true
 		}
+		if i == 0 {
+			runtime.Gosched() // let a thread which was just woken run to its next stop
+		}
+		held := 0
+		for _, th := range s.threads {
+			if !th.over && !th.open && th.inHold() {
+				held++
+			}
+		}
+		if held == n {
+			return true // all inside hold(): nothing left for them to do but block
+		}
 		gs := s.dump()
 		ok := len(gs) == n
 		for _, g := range gs {
